@@ -188,6 +188,21 @@ Theorem C01_phyclone_update_invariant_semi_adapted :
 Proof. exact phyclone_update_invariant_semi_adapted. Qed.
 Print Assumptions C01_phyclone_update_invariant_semi_adapted.
 
+(* the target premise is satisfiable for every positive gamma (weights that jump to the final target at the last step):
+   then PhyClone's update - each proposal, its criterion, its schedule - is invariant with nothing assumed but gamma > 0 *)
+Theorem C01_phyclone_update_invariant_closed_instance :
+  forall (n : nat) (on : bool) (gam : list (list bool) -> Qc) (thr : Q) (N : nat),
+  (1 <= n)%nat -> (forall t, 0 < gam t) ->
+  invariant (wlist gam (forests n on))
+    (pg_update (gorders n) (gcden n) (gsup on) (q_full on (gtarget n gam)) (gtarget n gam) (gdec n) (genc n on) (ess_rs thr) N (schedule n))
+  /\ invariant (wlist gam (forests n on))
+    (pg_update (gorders n) (gcden n) (gsup on) (q_semi on (gtarget n gam)) (gtarget n gam) (gdec n) (genc n on) (ess_rs thr) N (schedule n))
+  /\ (forall po : Qc, po < 1 -> (on = true -> 0 < po) -> (on = false -> po = 0) ->
+      invariant (wlist gam (forests n on))
+        (pg_update (gorders n) (gcden n) (gsup on) (q_boot po) (gtarget n gam) (gdec n) (genc n on) (ess_rs thr) N (schedule n))).
+Proof. exact phyclone_update_invariant_closed. Qed.
+Print Assumptions C01_phyclone_update_invariant_closed_instance.
+
 (* a closed instance for every n, outlier setting, positive target, particle count and schedule: uniform proposals over
    all_places and the corresponding target-ratio weights - no premise about proposal or weights is left *)
 Theorem C01_pg_update_over_grammar_closed_instance :
